@@ -75,6 +75,85 @@ func genTxScript(r *rng, n int, tier string, emit func(J)) {
 	}
 }
 
+// ---- near-collisions of the textual encodings of a monetary
+//
+// TxToScriptData shares one variable between postings that move the same amount of the same asset; whatever text
+// it uses to recognise "the same monetary" must separate (asset, amount) pairs such as
+//
+//	USD + 25 | USD2 + 5 | USD25 + 0        COIN/2 + 10 | COIN/21 + 0        (one text, split at different points)
+//	USD 5 | USD 25 | USD 125               (same asset, amounts that are suffixes / prefixes of one another)
+//	USD 5 | USD2 5 | USD25 5               (same amount, assets that are prefixes of one another)
+//
+// A family is built from ONE digit word w over a small alphabet: the assets are stem+w[:i] (or stem/w[:i]), the
+// amounts are the suffixes and prefixes of w (those that are decimal numerals), so that every way of cutting
+// stem‖w into asset‖amount is in the pools, together with equal amounts in different assets, equal assets with
+// different amounts and exact repetitions.
+var txStems = []string{"USD", "COIN", "A", "EUR", "X1", "TKN", "Z9Z"}
+
+func txNumeral(s string) bool { return s != "" && (s == "0" || s[0] != '0') }
+
+type txMon struct{ asset, amount string }
+
+// txFamily returns the asset pool, the amount pool and the complementary cuts (pairs whose asset‖amount texts are equal)
+func txFamily(r *rng) (assets, amts []string, cuts [][2]txMon) {
+	digits := []string{"0", "1", "2", "5"}
+	wl := 2 + r.n(3)
+	w := ""
+	for k := 0; k < wl; k++ {
+		w += r.pick(digits)
+	}
+	if r.p(12) { // the tail may be wider than 64 bits
+		w = w[:1+r.n(2)] + r.pick(txBig)
+	}
+	stem := r.pick(txStems)
+	slash := r.p(35) // vary the precision instead of the code: COIN/2, COIN/21
+	if slash {
+		stem += "/"
+	}
+	maxCut := len(w)
+	if maxCut > 4 {
+		maxCut = 4
+	}
+	all := []txMon{}
+	for i := 0; i <= maxCut; i++ {
+		if slash && i == 0 {
+			continue
+		}
+		as := stem + w[:i]
+		assets = append(assets, as)
+		if txNumeral(w[i:]) {
+			all = append(all, txMon{as, w[i:]})
+		}
+	}
+	for i := 0; i < len(all); i++ {
+		for j := i + 1; j < len(all); j++ {
+			cuts = append(cuts, [2]txMon{all[i], all[j]})
+		}
+	}
+	seen := map[string]bool{}
+	addAmt := func(a string) {
+		if txNumeral(a) && !seen[a] {
+			seen[a] = true
+			amts = append(amts, a)
+		}
+	}
+	for i := 0; i <= len(w); i++ {
+		addAmt(w[i:])
+		addAmt(w[:i])
+	}
+	addAmt("0")
+	// keep the pools small: collisions of any kind need repetitions
+	for len(assets) > 3 {
+		k := r.n(len(assets))
+		assets = append(assets[:k], assets[k+1:]...)
+	}
+	for len(amts) > 4 {
+		k := r.n(len(amts))
+		amts = append(amts[:k], amts[k+1:]...)
+	}
+	return
+}
+
 func genTxCase(r *rng, maxP int) J {
 	// account pool: small (so that accounts repeat) or 11+ (so that va10 sorts before va2)
 	poolN := 2 + r.n(4)
@@ -119,6 +198,15 @@ func genTxCase(r *rng, maxP int) J {
 		np = 11 + r.n(3)
 	}
 	style := r.n(10)
+	// near-collision family instead of unrelated assets / amounts
+	var cuts [][2]txMon
+	if fr := r.fork(); !wide && fr.p(40) {
+		assets, amts, cuts = txFamily(fr)
+		style = 9
+		if np < 2 {
+			np = 2 + fr.n(3)
+		}
+	}
 	posts := make([]any, 0, np)
 	add := func(s, d, a, as string) {
 		posts = append(posts, J{"source": s, "destination": d, "amount": a, "asset": as})
@@ -152,6 +240,16 @@ func genTxCase(r *rng, maxP int) J {
 				d = s // self-transfer
 			}
 			add(s, d, r.pick(amts), r.pick(assets))
+		}
+		if len(cuts) > 0 && r.p(60) { // two postings whose asset‖amount texts are equal, anywhere in the list
+			c := cuts[r.n(len(cuts))]
+			i, j := r.n(np), r.n(np)
+			if i == j {
+				j = (i + 1) % np
+			}
+			pi, pj := posts[i].(J), posts[j].(J)
+			pi["asset"], pi["amount"] = c[0].asset, c[0].amount
+			pj["asset"], pj["amount"] = c[1].asset, c[1].amount
 		}
 	}
 	// balances derived from the postings: what each (account, asset) must hold at the start for the replay to pass
@@ -263,14 +361,15 @@ func (r *rng) pick2(xs []int) int { return xs[r.n(len(xs))] }
 // ---------------------------------------------------------------- execution
 
 type txIn struct {
-	posts ledger.Postings
-	raw   []map[string]any
-	bal   [][3]string
-	meta  metadata.Metadata
-	ref   string
-	ts    ledger.Time
-	hasTs bool
-	tsStr string // RFC3339Nano text put into HTTP bodies
+	posts  ledger.Postings
+	raw    []map[string]any
+	bal    [][3]string
+	meta   metadata.Metadata
+	ref    string
+	ts     ledger.Time
+	hasTs  bool
+	tsStr  string // RFC3339Nano text put into HTTP bodies
+	noMeta bool   // the request has no "metadata" key at all (input "meta": null)
 }
 
 func parseTxIn(in J) txIn {
@@ -294,6 +393,9 @@ func parseTxIn(in J) txIn {
 		t.bal = append(t.bal, [3]string{b[0].(string), b[1].(string), b[2].(string)})
 	}
 	t.meta = metadata.Metadata{}
+	if v, present := in["meta"]; present && v == nil {
+		t.noMeta = true
+	}
 	if m, ok := in["meta"].(map[string]any); ok {
 		for k, v := range m {
 			t.meta[k], _ = v.(string)
@@ -333,6 +435,11 @@ type txEngine struct {
 }
 
 func newTxEngine(ctx context.Context, bal [][3]string) *txEngine {
+	return newTxEngineOn(ctx, bal, nil)
+}
+
+// wrap, when given, is put between the commander and the in-memory store (the bulk area records the inserted logs there)
+func newTxEngineOn(ctx context.Context, bal [][3]string, wrap func(*storage.InMemoryStore) command.Store) *txEngine {
 	store := storage.NewInMemoryStore()
 	e := &txEngine{store: store}
 	if len(bal) > 0 {
@@ -352,7 +459,11 @@ func newTxEngine(ctx context.Context, bal [][3]string) *txEngine {
 		}
 		e.base = 1
 	}
-	e.cmd = command.New(store, command.NoOpLocker, command.NewCompiler(1024), command.NewReferencer(), bus.NewNoOpMonitor())
+	var cs command.Store = store
+	if wrap != nil {
+		cs = wrap(store)
+	}
+	e.cmd = command.New(cs, command.NoOpLocker, command.NewCompiler(1024), command.NewReferencer(), bus.NewNoOpMonitor())
 	if err := e.cmd.Init(ctx); err != nil {
 		panic(err)
 	}
@@ -449,8 +560,10 @@ func txBody(t txIn) []byte {
 		sb.WriteString("}")
 	}
 	sb.WriteString(`]`)
-	mb, _ := json.Marshal(t.meta)
-	fmt.Fprintf(&sb, `,"metadata":%s`, mb)
+	if !t.noMeta {
+		mb, _ := json.Marshal(t.meta)
+		fmt.Fprintf(&sb, `,"metadata":%s`, mb)
+	}
 	if t.ref != "" {
 		rb, _ := json.Marshal(t.ref)
 		fmt.Fprintf(&sb, `,"reference":%s`, rb)
@@ -463,6 +576,7 @@ func txBody(t txIn) []byte {
 }
 
 type txJSON struct {
+	ID       *big.Int `json:"id"`
 	Postings []struct {
 		Source      string      `json:"source"`
 		Destination string      `json:"destination"`
